@@ -98,7 +98,6 @@ the example document and `json_compat_obj_encode` of the result gives back the m
 theorem example_roundtrip_encode_partial (E : Ext) (C : CExt) (us : List CUnion) (env : Env) (cs : CStruct) (sd : StructDef)
     (ex : List (String × ExVal))
     (hwf : envWF env = true) (hchain : envWFX env = true) (hsub : cs.subtypes = none)
-    (hpat : ∀ p s, C.prefixMatch p s = true → E.patMatch p s = true)
     (hsd : structDefOfC us cs = some sd) (henv : env.struct? cs.cls = some sd)
     (hscalar : ∀ f ∈ cs.allFields, scalarTy f.ty = true)
     (hpub : ∀ f ∈ cs.allFields, f.omitted = none)
@@ -111,7 +110,7 @@ theorem example_roundtrip_encode_partial (E : Ext) (C : CExt) (us : List CUnion)
       jsonCompatObjDecode E env [] true (.struct {} cs.cls) (.obj kvs) = .ok v ∧
       jsonCompatObjEncode E env [] false (.struct {} cs.cls) v = .ok (.obj kvs') ∧ kvs'.Perm kvs := by
   obtain ⟨kvs, slots, h1, _, h3, ⟨kvs', h4, h5⟩, h6, h7⟩ :=
-    example_roundtrip_partial E C us env cs sd ex hpat hsd henv hscalar hpub hnd hdef hexact hadd
+    example_roundtrip_partial E C us env cs sd ex hsd henv hscalar hpub hnd hdef hexact hadd
   obtain ⟨levels, hlv, hsdeq⟩ := structDefOfC_inv hsd
   obtain ⟨_, hcls⟩ := chain_mapM_flat hlv
   have hself : cs.cls ∈ cs.chain.map (·.1) := by
@@ -127,7 +126,6 @@ theorem example_roundtrip_encode_partial (E : Ext) (C : CExt) (us : List CUnion)
 theorem example_union_roundtrip_encode_partial (E : Ext) (C : CExt) (us : List CUnion) (env : Env) (cu : CUnion) (ud : UnionDef)
     (tag : String) (v : ExVal) (t : CTag)
     (hwf : envWF env = true) (hchain : envWFX env = true)
-    (hpat : ∀ p s, C.prefixMatch p s = true → E.patMatch p s = true)
     (hud : unionDefOfC cu = some ud) (henv : env.union? cu.cls = some ud)
     (hpub : ∀ t ∈ cu.allTags, t.omitted = none) (hnd : (cu.allTags.map (·.name)).Nodup)
     (ht : cu.allTags.find? (·.name == tag) = some t)
@@ -139,7 +137,7 @@ theorem example_union_roundtrip_encode_partial (E : Ext) (C : CExt) (us : List C
       jsonCompatObjDecode E env [] true (.union {} cu.cls) doc = .ok u ∧
       jsonCompatObjEncode E env [] false (.union {} cu.cls) u = .ok doc := by
   obtain ⟨kvs, payload, h1, _, h3, h4, h5, h6⟩ :=
-    example_union_roundtrip_partial E C us env cu ud tag v t hpat hud henv hpub hnd ht hty hca htne hexact hadd
+    example_union_roundtrip_partial E C us env cu ud tag v t hud henv hpub hnd ht hty hca htne hexact hadd
   obtain ⟨levels, hlv, hudeq⟩ := unionDefOfC_inv hud
   obtain ⟨_, hcls⟩ := uchain_mapM_flat hlv
   have hself : cu.cls ∈ cu.chain.map (·.1) := by
@@ -187,7 +185,7 @@ example : ∃ kvs v kvs', structExampleDoc rtItem rtEx = some (.obj kvs) ∧
     simp only [Bool.and_eq_true, Option.isNone_iff_eq_none] at this
     exact ⟨this.1.1.1, this.1.1.2, this.1.2, this.2⟩
   exact example_roundtrip_encode_partial rtE rtC rtApi.unions rtApiEnv rtItem sd rtEx rtApiEnv_wf.2.1 rtApiEnv_wf.2.2 rfl
-    (fun _ _ h => h) hsd henv (fun f h => (hf' f h).1) (fun f h => (hf' f h).2.1) (by decide)
+    hsd henv (fun f h => (hf' f h).1) (fun f h => (hf' f h).2.1) (by decide)
     (fun f h => hdef_of_dfltOK (hf' f h).2.2.1) (fun f h => hexact_of_exactOK (hf' f h).2.2.2) rfl
 
 example : ∃ doc u, unionExampleDoc rtTint [("pale", .lit (.flt 4609434218613702656))] = some doc ∧
@@ -195,7 +193,7 @@ example : ∃ doc u, unionExampleDoc rtTint [("pale", .lit (.flt 460943421861370
     jsonCompatObjEncode rtE rtApiEnv [] false (.union {} rtTint.cls) u = .ok doc := by
   obtain ⟨ud, hud, henv⟩ := envOfC_union rtApiEnv_eq (by decide) (cu := rtTint) (by simp [rtApi])
   exact example_union_roundtrip_encode_partial rtE rtC [] rtApiEnv rtTint ud "pale" _
-    { name := "pale", ty := .float "Float64" none none } rtApiEnv_wf.2.1 rtApiEnv_wf.2.2 (fun _ _ h => h) hud henv
+    { name := "pale", ty := .float "Float64" none none } rtApiEnv_wf.2.1 rtApiEnv_wf.2.2 hud henv
     (by decide) (by decide) rfl (Or.inr rfl) (by decide) (by decide) (by intro _ l h; cases h; rfl) rfl
 
 end StoneVerif.IrCheck
